@@ -12,6 +12,7 @@ mkdir -p .build/logs evidence
 cp -f /repo/Cargo.lock kani/Cargo.lock
 cp -f /repo/Cargo.lock kani/Cargo.lock.src
 cp -f /repo/Cargo.lock replay/Cargo.lock
+cp -f /repo/Cargo.lock replay_quinn/Cargo.lock
 pids=()
 for i in 0 1 2 3 4 5 6 7; do
   ( cd kani && cargo kani --target-dir "../.build/w$i" --only-codegen -Z stubbing \
@@ -25,10 +26,14 @@ if [ $rc -ne 0 ]; then echo "setup: warming a Kani target dir failed, see .build
   || { echo "setup: native validation of the reference models FAILED, see .build/logs/setup_refmodel.log"; tail -20 .build/logs/setup_refmodel.log; rc=1; }
 ( cd replay && cargo build --offline --target-dir ../.build/replay > ../.build/logs/setup_replay.log 2>&1 ) \
   || { echo "setup: replay crate does not build, see .build/logs/setup_replay.log"; tail -20 .build/logs/setup_replay.log; rc=1; }
+( cd replay_quinn && env -u RUSTFLAGS cargo build --offline --target-dir ../.build/replay_quinn > ../.build/logs/setup_replay_quinn.log 2>&1 ) \
+  || { echo "setup: quinn replay crate does not build (only needed to replay C17 counterexamples), see .build/logs/setup_replay_quinn.log"; tail -5 .build/logs/setup_replay_quinn.log; }
 python3-vt -c "
 import sys; sys.path.insert(0, '.')
 from mirsym import engine as E
 L = E.Loaded()
 print('setup: MIR dump ok,', len(L.fns), 'functions,', len(L.consts), 'named constants')
+Q = E.Loaded('h3-quinn')
+print('setup: MIR dump of h3-quinn ok,', len(Q.fns), 'functions')
 " || { echo "setup: MIR dump / z3 bindings failed"; rc=1; }
 exit $rc
